@@ -50,7 +50,7 @@ ASSUMPTIONS = [
     "calls whose format and arguments disagree are only required not to raise",
     "logging.raiseExceptions keeps its default; the capturing handler does not format at emit time, formatting is attempted by the monitor",
 ]
-MINIMUMS = {"monitor:delivered": 10000, "monitor:tagged": 8000, "monitor:trace-id": 3000, "inherited_trace_ids": 1000, "calls_with_args_under_percent_names": 300, "own_logger_below_root": 500, "calls_outside_scope": 500, "spawned_task_calls": 300, "monitor:unique-identifier": 3000, "forests_with_absorbed_exceptional_exits": 100}
+MINIMUMS = {"monitor:delivered": 10000, "monitor:tagged": 8000, "monitor:trace-id": 3000, "inherited_trace_ids": 1000, "calls_with_args_under_percent_names": 300, "own_logger_below_root": 500, "calls_outside_scope": 500, "spawned_task_calls": 300, "monitor:unique-identifier": 3000, "forests_with_absorbed_exceptional_exits": 100, "forests_under_a_stamping_log_record_factory": 100}
 JOBS = {"quick": 4, "thorough": 16}
 LEVEL_TEXT = (
     "All forests of up to 3 nodes x {own logger?} x {own trace id?} per node with rotating name classes, and sampled forests up to 2 x 5 nodes, are executed with log calls of every level, "
@@ -121,9 +121,24 @@ def build(forest: list[dict[str, Any]], rng: random.Random) -> list[dict[str, An
     return prog
 
 
-def run_once(prog: list[dict[str, Any]], chooser: Chooser) -> dict[str, Any]:
+STAMPED = ("trace_id", "scope", "scope_id", "scope_name", "label", "identifier", "correlation_id", "request_id", "span_id", "parent_id", "context", "metrics", "trace", "tags")
+
+
+def run_once(prog: list[dict[str, Any]], chooser: Chooser, stamping_factory: bool = False) -> dict[str, Any]:
     root = logging.getLogger()
     out: dict[str, Any] = {}
+    old_factory = logging.getLogRecordFactory()
+
+    def stamping(*args: Any, **kwargs: Any) -> logging.LogRecord:
+        # the application stamps every log record with ids of its own (the standard logging.setLogRecordFactory recipe for
+        # correlation ids); no handler, filter or logger raises anything
+        record = old_factory(*args, **kwargs)
+        for name in STAMPED:
+            setattr(record, name, f"app-{name}")
+        return record
+
+    if stamping_factory:
+        logging.setLogRecordFactory(stamping)
 
     async def main(loop: Any) -> None:
         W: World = loop.W
@@ -370,12 +385,15 @@ def run(R: Recorder, tier: str, seed: int, shard: int, nshards: int) -> None:
         if i % nshards != shard:
             continue
         ch = Chooser([], "first" if i % 3 else "last")
-        judge(R, forest, prog, ch, run_once(prog, ch))
+        if i % 4 == 1:
+            forest[0]["stamping_factory"] = True
+            R.count("forests_under_a_stamping_log_record_factory")
+        judge(R, forest, prog, ch, run_once(prog, ch, stamping_factory=i % 4 == 1))
 
 
 def replay(R: Recorder, rec: dict[str, Any]) -> None:
     ch = Chooser(rec["choices"], "first")
-    out = run_once(rec["program"], ch)
+    out = run_once(rec["program"], ch, stamping_factory=bool(rec["forest"][0].get("stamping_factory")))
     judge(R, rec["forest"], rec["program"], ch, out)
     for r in out["W"].capture.records:
         print(r.name, r.levelname, repr(r.msg), r.args)
